@@ -69,6 +69,11 @@ checks.update({
    technique="exhaustive enumeration of argument vectors over a token alphabet for every registered command through the real command multiplexer, plus all short byte strings through the RESP reader; crash-isolated workers with a wall-clock watchdog that re-runs a hung batch request by request",
    text="For each of the 32 registered commands (the list is read from the server at run time): every argument vector of length 0..3 (quick) / 0..4 (thorough) over a 24-token alphabet, the vectors of length <= 2 behind 16 plausible positional prefixes (reaching 'valid request + option without its value / unknown option'), upper-case command names through a second member, and every byte string of length <= 5/6 over {* $ 1 2 - CR LF a SP} through redcon's reader: no panic, a reply is written, PING on the same connection and a Put/Get round trip on another connection succeed afterwards; a request that keeps the CPU past the watchdog is named.",
    note="handlers are called through the real multiplexer, not through sockets; a handler that only waits in virtual time is waiting, not wedged; random byte streams at socket level are sampling and outside this family"),
+
+ "C17": dict(cat="exploration", engine="inputmc", ref="6 C17",
+   technique="exhaustive enumeration of type-boundary values x key lengths x entry sizes around the table size x client paths x stages (direct, fail-over to the backup copy, migration after a join) on real members; typed read-back comparison plus white-box absence check for rejected writes",
+   text="61 boundary values over every supported type (integer widths at min/-1/0/1/max, floats incl. -0/denormal/max/Inf/NaN, bool, strings and byte slices incl. empty, NUL, CR LF, RESP look-alikes, non-UTF8, 1 KiB, time incl. zone and year 9999, duration min/max, BinaryMarshaler) x paths {EO, EN, CC} x stages {direct read, read after the owner crashed (R=2: the backup copy serves), read after a join and balancing}; key lengths {0,1,254,255,256,257,300}; entries of tableSize-3..+2 bytes in 512-byte tables. Accepted writes read back equal into the same type at every stage and two neighbour keys of the same partition stay intact; rejected writes return exactly ErrKeyTooLarge / ErrEntryTooLarge and leave no copy (and no undecodable entry) on any member; a call that never returns is named by the watchdog.",
+   note="quick pairs every value with the plain key plus a rotating special key, thorough crosses them fully; values above 1 KiB (e.g. > 64 KiB) are not in the alphabet"),
 })
 not_applicable = {}
 all_ids = ["C%02d" % i for i in range(1, 21)]
@@ -88,7 +93,7 @@ m = {
  "engines": [
    {"name": "kvmc", "path": "harness/kvmc", "serves_properties": ["C11", "C12", "C20"], "kind_free_text": "explicit-state BFS over the real storage engine"},
    {"name": "schedmc", "path": "harness/schedmc", "serves_properties": ["C01", "C07", "C08"], "kind_free_text": "stateless schedule exploration (preemption bounded DFS) of real members under a cooperative scheduler"},
-   {"name": "inputmc", "path": "harness/checks/c16.go", "serves_properties": ["C16"], "kind_free_text": "exhaustive enumeration of request argument vectors / byte frames through the real handlers, in crash-isolated workers with a watchdog"},
+   {"name": "inputmc", "path": "harness/checks/c16.go", "serves_properties": ["C16", "C17"], "kind_free_text": "exhaustive enumeration of request argument vectors / byte frames / typed boundary values through the real handlers and clients, in crash-isolated workers with a watchdog"},
    {"name": "faultgrid", "path": "harness/checks", "serves_properties": ["C05", "C06", "C15"], "kind_free_text": "exhaustive enumeration of finite configuration / fault / layout grids, one fresh real cluster per case"},
    {"name": "clustermc", "path": "harness/clustermc", "serves_properties": ["C04", "C09", "C10", "C13", "C19"], "kind_free_text": "explicit-state BFS over event sequences on a simulated cluster of real members (path replay)"},
  ],
